@@ -197,9 +197,77 @@ func firstLines(s string, n int) string {
 	return strings.Join(ls, "\n")
 }
 
+// batchDecide sends a batch of obligations to one z3 process (push/pop per
+// obligation, per-query timeout). Only `unsat` answers are accepted from the
+// batch; everything else is decided individually afterwards.
+func batchDecide(batch []*Obligation, dir string, id int) {
+	var all []*Term
+	for _, o := range batch {
+		all = append(all, o.Hyps...)
+		all = append(all, o.Goal)
+	}
+	var b strings.Builder
+	b.WriteString("(set-option :timeout 3000)\n(set-logic ALL)\n")
+	b.WriteString(declsFor(all, nil))
+	for _, o := range batch {
+		b.WriteString("(push 1)\n")
+		for _, h := range o.Hyps {
+			fmt.Fprintf(&b, "(assert %s)\n", h)
+		}
+		fmt.Fprintf(&b, "(assert (not %s))\n(check-sat)\n(pop 1)\n", o.Goal)
+	}
+	file := filepath.Join(dir, fmt.Sprintf("b%05d.smt2", id))
+	os.WriteFile(file, []byte(b.String()), 0o644)
+	defer os.Remove(file)
+	c, cancel := context.WithTimeout(context.Background(), time.Duration(4*len(batch)+10)*time.Second)
+	defer cancel()
+	t0 := time.Now()
+	out, _ := exec.CommandContext(c, "z3-new", file).CombinedOutput()
+	ms := time.Since(t0).Milliseconds()
+	lines := strings.Split(strings.TrimSpace(string(out)), "\n")
+	if strings.Contains(string(out), "(error") {
+		return // decide individually
+	}
+	for i, o := range batch {
+		if i < len(lines) && strings.TrimSpace(lines[i]) == "unsat" {
+			o.Status, o.Solver, o.Ms = "discharged", "z3-5.1.0", ms/int64(len(batch))
+		}
+	}
+}
+
 func decideAll(obls []*Obligation, timeoutS int, workers int, confirm bool) (solverMs map[string]int64) {
 	dir, _ := os.MkdirTemp("", "gvc-smt-")
 	defer os.RemoveAll(dir)
+	if !confirm {
+		// fast path: batches of plain validity obligations
+		var plain []*Obligation
+		for _, o := range obls {
+			if !o.WantSat && o.RawSMT == "" && o.Prelude == "" {
+				plain = append(plain, o)
+			}
+		}
+		const bs = 24
+		var bwg sync.WaitGroup
+		bch := make(chan int)
+		for w := 0; w < workers; w++ {
+			bwg.Add(1)
+			go func() {
+				defer bwg.Done()
+				for i := range bch {
+					hi := i + bs
+					if hi > len(plain) {
+						hi = len(plain)
+					}
+					batchDecide(plain[i:hi], dir, i)
+				}
+			}()
+		}
+		for i := 0; i < len(plain); i += bs {
+			bch <- i
+		}
+		close(bch)
+		bwg.Wait()
+	}
 	var wg sync.WaitGroup
 	ch := make(chan int)
 	for w := 0; w < workers; w++ {
@@ -212,7 +280,9 @@ func decideAll(obls []*Obligation, timeoutS int, workers int, confirm bool) (sol
 		}()
 	}
 	for i := range obls {
-		ch <- i
+		if obls[i].Status == "" {
+			ch <- i
+		}
 	}
 	close(ch)
 	wg.Wait()
